@@ -633,6 +633,19 @@ def line_formatter_rules(chk):
                     chk.bad(rule, name, "default tags are applied over the record's values", node=fmt.node, stmt="tags-order")
                     ok = False
                 else:
+                    # known-bad: the per-key copy loop sits INSIDE one try whose handler swallows the lookup error -- the first
+                    # whitelisted key a record does not report ends the loop, and the keys after it are never taken
+                    swallowed_loop = None
+                    for t in ast.walk(fmt.node):
+                        if isinstance(t, ast.Try) and any(isinstance(b, (ast.For, ast.While)) for b in t.body):
+                            for h in t.handlers:
+                                if all(isinstance(b, ast.Pass) or (isinstance(b, ast.Expr) and isinstance(b.value, ast.Constant)) for b in h.body):
+                                    swallowed_loop = (t, h)
+                    if swallowed_loop is not None:
+                        t, h = swallowed_loop
+                        chk.bad(rule, name, "the loop that copies the whitelisted keys runs inside ONE try whose `except %s: pass` ends it at the first key a record does not report: the whitelisted keys after it keep their defaults and the values the record does report for them are dropped (not emitted as fields either)" % (util.unparse(h.type) if h.type else ""), node=t, stmt="tags-loop-aborted-by-handler")
+                        ok = False
+                        return
                     chk.undecided(rule, name, "tag assembly idiom not recognised: %s" % show(tags), node=fmt.node)
                     ok = False
             fields = as_dict_comp(fields)
